@@ -16,7 +16,8 @@ func init() { engines["C10"] = func() *ShardResult { return runFault("C10") } }
 func runFault(prop string) *ShardResult {
 	res := newResult()
 	thorough := *fTier == "thorough"
-	maxLen := 3
+	// workloads are enumerated length by length (all of length 1, then 2, ...), so a deadline cuts the longest ones
+	maxLen := 4
 	if thorough {
 		maxLen = 5
 	}
@@ -68,10 +69,11 @@ func runFault(prop string) *ShardResult {
 	}
 	n := 0
 	outcomes := map[string]bool{}
+	target := 0
 	runCfg := func(cfg core.Config) {
 		var rec func(cur []core.Op, m *core.Model)
 		rec = func(cur []core.Op, m *core.Model) {
-			if len(cur) > 0 {
+			if len(cur) > 0 && len(cur) == target {
 				// fault-free dry run sizes the enumeration
 				dry := core.RunFault(cfg, cur, cont, nil)
 				for _, v := range dry.Viol {
@@ -137,7 +139,7 @@ func runFault(prop string) *ShardResult {
 					}
 				}
 			}
-			if len(cur) >= maxLen {
+			if len(cur) >= target || !res.Exhaustive {
 				return
 			}
 			for _, o := range alpha(m) {
@@ -153,7 +155,7 @@ func runFault(prop string) *ShardResult {
 	// batches larger than the writer's 64 KiB buffer (the buffer is grown or flushed in the middle of a batch):
 	// as the first batch of a segment and after a small committed one. Few workloads: they go first.
 	{
-		alpha0, maxLen0 := alpha, maxLen
+		alpha0 := alpha
 		alpha = func(m *core.Model) []core.Op {
 			switch m.Last {
 			case 0:
@@ -163,13 +165,19 @@ func runFault(prop string) *ShardResult {
 			}
 			return nil
 		}
-		maxLen = 2
-		runCfg(core.Config{SegSize: 1 << 20})
+		for target = 1; target <= 2; target++ {
+			runCfg(core.Config{SegSize: 1 << 20})
+		}
 		res.Bounds["large_batch_workloads"] = "A(1,[40000,40000]); A(1,[8]) A(2,[40000,40000]) on a 1 MiB segment"
-		alpha, maxLen = alpha0, maxLen0
+		alpha = alpha0
 	}
-	for _, cfg := range cfgs {
-		runCfg(cfg)
+	for target = 1; target <= maxLen && res.Exhaustive; target++ {
+		for _, cfg := range cfgs {
+			runCfg(cfg)
+		}
+		if res.Exhaustive {
+			res.Mins["workload_lengths_completed"] = int64(target)
+		}
 	}
 	for o := range outcomes {
 		res.Sets["states"] = append(res.Sets["states"], o)
